@@ -42,28 +42,28 @@ type event struct {
 }
 
 type sim struct {
-	c        *driver.Ctx
-	cfg      qcfg
-	r        *rig
-	ev       chan event
-	prods    []*prod
-	byID     map[string]*prod
-	size     int64
-	queue    []*prod
-	inflight map[*entry]*prod
-	order    []*entry // in-flight entries in hand-off order
-	waiters  map[*prod]bool
-	expWake  int
-	expRet   map[*prod]bool
-	drain    bool
-	trace    []string
-	unsettled int
-	failed   bool
-	stats    map[string]int
+	c           *driver.Ctx
+	cfg         qcfg
+	r           *rig
+	ev          chan event
+	prods       []*prod
+	byID        map[string]*prod
+	size        int64
+	queue       []*prod
+	inflight    map[*entry]*prod
+	order       []*entry // in-flight entries in hand-off order
+	waiters     map[*prod]bool
+	expWake     int
+	expRet      map[*prod]bool
+	drain       bool
+	trace       []string
+	unsettled   int
+	failed      bool
+	stats       map[string]int
 	gaugeBefore int64
 	step        int
 	soleWaiter  *prod
-	unsolicited int      // acceptances of blocked producers the driver did not predict (this step)
+	unsolicited int // acceptances of blocked producers the driver did not predict (this step)
 	flushing    bool
 	deferred    []func() // persistent queue: decision verdicts held back until the step is known to have been quiescent
 }
